@@ -210,9 +210,10 @@ structure ReadsAgree (U : Univ) (st : St) (sp : Sp) : Prop where
   tagKeys : ∀ m p, st.tagKeys U m p = sp.tagKeys U m p
   tagVals : ∀ m keys p, st.tagVals U m keys p = sp.tagVals U m keys p
   card : ∀ m p, st.card U m p = sp.card U m p
+  tagValCard : ∀ m keys p, st.tagValCard U m keys p = sp.tagValCard U m keys p
 
 theorem reads_agree {st : St} {sp : Sp} (U : Univ) (h : R st sp) : ReadsAgree U st sp := by
-  refine ⟨sel_eq U h, ?_, ?_, ?_, ?_, ?_⟩
+  refine ⟨sel_eq U h, ?_, ?_, ?_, ?_, ?_, ?_⟩
   · intro m call c dims lo hi
     simp only [St.agg, Sp.agg, sel_eq U h]
   · intro m p
@@ -229,5 +230,7 @@ theorem reads_agree {st : St} {sp : Sp} (U : Univ) (h : R st sp) : ReadsAgree U 
     | some p =>
       simp only [St.card, Sp.card, guarded_cardcond]
       rw [← search_eq U h, List.length_map]
+  · intro m keys p
+    simp only [St.tagValCard, Sp.tagValCard, St.tagVals, Sp.tagVals, guarded_tagvalues, search_eq U h]
 
 end OG.C13
